@@ -18,7 +18,7 @@ RULE = (
     "case = hypergraph or simplicial complex with >= 1 edge of >= 2 nodes (labels int / negative / gapped / str / multi-char "
     "str / integral floats / mixed int-float / numpy ints, isolated nodes, singleton edges, multi-edges, explicit IDs) + layout options (center, radius, resolution, "
     "equidistant, seed, k, return_phantom_graph) + max_order + a style mode (scalar / list / dict keyed by ID / stat "
-    "object) + presentation options that must not move anything (node / hyperedge labels, marker shape, alpha, rescale_sizes, aspect, dyad style, edge line width, hull) + the position dict in node order, reversed or with extra keys + which drawing function (draw, draw_nodes, draw_hyperedges, draw_simplices). Oracle: every layout returns "
+    "object) + presentation options that must not move anything (node / hyperedge labels, marker shape, alpha, rescale_sizes, aspect, dyad style, edge line width, hull) + the position dict in node order, reversed, with extra keys, or caller-made (all nodes on a line / on a 3-column grid) + which drawing function (draw, draw_nodes, draw_hyperedges, draw_simplices). Oracle: every layout returns "
     "exactly one finite 2-vector per node (bipartite layout: per node and per edge); edge_positions_from_barycenters = mean "
     "of member positions; drawing with a supplied pos succeeds and node_collection offsets = [pos[n] for n in H.nodes], "
     "dyad segments = the two-node edges (multiset of endpoint pairs), patch polygons = the edges of 3..max_order+1 nodes "
@@ -64,7 +64,7 @@ def cases(draw, tier):
         "max_order": draw(st.sampled_from([None, None, 1, 2, 3])),
         "style": draw(st.sampled_from(["default", "scalar", "list", "dict", "stat"])),
         "fn": draw(st.sampled_from(["draw", "draw", "draw_nodes", "draw_hyperedges", "draw_simplices"])),
-        "posmode": draw(st.sampled_from(["same", "same", "reversed", "extra"])),
+        "posmode": draw(st.sampled_from(["same", "same", "reversed", "extra", "line", "grid"])),
         # presentation options that must not change what is rendered where (None = leave the default)
         "decor": draw(st.one_of(st.none(), st.fixed_dictionaries({
             "node_labels": st.sampled_from([None, True, "dict"]), "hyperedge_labels": st.sampled_from([None, True, "dict"]),
@@ -138,6 +138,10 @@ def run_case(case, ctx):
             pos = {k: pos[k] for k in reversed(list(pos))}
         elif pmode == "extra":
             pos = dict([("__not_a_node__", np.array([9.0, 9.0]))] + list(pos.items()))
+        elif pmode == "line":  # caller-supplied positions: all nodes on one line (members of an edge are collinear)
+            pos = {v: np.array([float(i), 0.0]) for i, v in enumerate(pos)}
+        elif pmode == "grid":  # ... or on a small integer grid (several members in the same direction from the centroid)
+            pos = {v: np.array([float(i % 3), float(i // 3)]) for i, v in enumerate(pos)}
         bc = xgi.edge_positions_from_barycenters(H, pos)
         ctx.check(set(bc) == set(mem) and all(np.allclose(np.asarray(bc[e], float), np.mean([pos[v] for v in mem[e]], axis=0)) for e in mem if mem[e]),
                   ("layout", "edge_positions_from_barycenters", "mean-of-members"), lambda: repr(bc))
